@@ -199,6 +199,8 @@ def check_trajsplit(length, n, equal):
     coords[:, 1, 1] = 0.5
     traj = concretise.make_trajectory(coords, ['Li', 'S'], M, time_step=2e-15)
     viols = []
+    if (length + n) % 2:
+        traj.displacements  # the source may be in either internal representation when it is split
     try:
         parts = traj.split(n, equal_parts=equal)
     except Exception as e:  # noqa: BLE001
